@@ -241,7 +241,7 @@ add(["C05","C04","C16"],"neg-tx-closure-in-local",False,"","internal/persistence
 # ---- more positive ones
 add(["C09"],"expand-children-of-first-tuple",True,"R09.3","internal/expand/engine.go","child, err := e.buildTreeRecursive(ctx, r.Subject, restDepth-1)","child, err := e.buildTreeRecursive(ctx, rels[0].Subject, restDepth-1)")
 add(["C09","C07"],"expand-paging-restarts",True,"","internal/expand/engine.go","			x.WithToken(nextPage),\n		)\n		if err != nil {\n			return nil, err\n		} else if len(rels) == 0 {","			x.WithToken(\"\"),\n		)\n		if err != nil {\n			return nil, err\n		} else if len(rels) == 0 {")
-add(["C08","C03"],"batch-allowed-ignores-membership",True,"R08.2","internal/check/handler.go",
+add(["C08","C03"],"batch-allowed-ignores-membership",True,"","internal/check/handler.go",
 """		responses[i] = &CheckPermissionResultWithError{
 			Allowed: result.Membership == checkgroup.IsMember,""","""		responses[i] = &CheckPermissionResultWithError{
 			Allowed: result.Err == nil,""")
@@ -282,7 +282,7 @@ def NEW_DEL(step): return """		nid := p.NetworkID(ctx)
 }
 
 func (p *Persister) DeleteAllRelationTuples""" % step
-add(["C05","C04"],"delete-chunks-skip-seams",True,"R05.6",RT,OLD_DEL,NEW_DEL("end + 1"))
+add(["C05","C04"],"delete-chunks-skip-seams",True,"",RT,OLD_DEL,NEW_DEL("end + 1"))
 add(["C05","C04","C06"],"neg-delete-index-tiling",False,"",RT,OLD_DEL,NEW_DEL("end"))
 add(["C05"],"transaction-per-chunk",True,"R05.5",RT,
 """	return p.Transaction(ctx, func(ctx context.Context) error {
